@@ -397,6 +397,9 @@ func (w *World) ghostField(t types.Type, name string) *GhostField {
 		if g.Type == n.Obj().Name() && g.Field == name && g.Pkg == n.Obj().Pkg().Path() {
 			return g
 		}
+		if g.ExtPkg != "" && g.Type == n.Obj().Name() && g.Field == name && n.Obj().Pkg().Name() == g.ExtPkg {
+			return g
+		}
 	}
 	return nil
 }
